@@ -1,33 +1,34 @@
 (* Properties/C24.v — bucket-routed storages are isolated (conditional middleware).
-   Statements are over ALL routing configurations, ALL worlds (lists of backing stores) and ALL
-   operations / histories of the model. *)
+   Statements are over ALL routing configurations, ALL worlds (lists of backing stores with
+   versioned and unversioned buckets), ALL operations / histories and ALL copy options (source
+   version id, byte range, the four copy-source preconditions) of the model. *)
 From Verif Require Import Bytes Codec Router RouterProofs.
 
 (* isolation, part 1: an operation changes no backing storage other than the one its (destination)
    bucket is routed to; reads (Head, ListBuckets) change nothing at all *)
-Theorem C24_isolation_storages : forall c w o j,
+Theorem C24_isolation_storages : forall c now w o j,
   (forall i b, target c o = Some (i, b) -> j <> i) ->
-  get_store (fst (step c w o)) j = get_store w j.
+  get_store (fst (step c now w o)) j = get_store w j.
 Proof. exact step_other_storage. Qed.
 Print Assumptions C24_isolation_storages.
 
 (* isolation, part 2: inside that storage only the named bucket changes *)
-Theorem C24_isolation_buckets : forall c w o i b b2,
+Theorem C24_isolation_buckets : forall c now w o i b b2,
   target c o = Some (i, b) -> b2 <> b -> i < length w ->
-  aget b2 (get_store (fst (step c w o)) i) = aget b2 (get_store w i).
+  aget b2 (get_store (fst (step c now w o)) i) = aget b2 (get_store w i).
 Proof. exact step_other_bucket. Qed.
 Print Assumptions C24_isolation_buckets.
 
 (* isolation over histories: a storage that no operation of the history targets is untouched *)
-Theorem C24_isolation_history : forall c ops w j,
+Theorem C24_isolation_history : forall c ops n w j,
   (forall o i b, In o ops -> target c o = Some (i, b) -> j <> i) ->
-  get_store (fst (run c w ops)) j = get_store w j.
+  get_store (fst (run_from c n w ops)) j = get_store w j.
 Proof.
-  intros c ops. induction ops as [|o ops IH]; intros w j H; cbn [run]; [reflexivity|].
-  destruct (step c w o) as [w1 x] eqn:E. destruct (run c w1 ops) as [w2 xs] eqn:E2. cbn [fst].
-  replace w2 with (fst (run c w1 ops)) by (rewrite E2; reflexivity).
+  intros c ops. induction ops as [|o ops IH]; intros n w j H; cbn [run_from]; [reflexivity|].
+  destruct (step c (n * 1000 + 537)%Z w o) as [w1 x] eqn:E. destruct (run_from c (n + 1)%Z w1 ops) as [w2 xs] eqn:E2. cbn [fst].
+  replace w2 with (fst (run_from c (n + 1)%Z w1 ops)) by (rewrite E2; reflexivity).
   rewrite IH by (intros o' i b Hin; apply H; right; exact Hin).
-  replace w1 with (fst (step c w o)) by (rewrite E; reflexivity).
+  replace w1 with (fst (step c (n * 1000 + 537)%Z w o)) by (rewrite E; reflexivity).
   apply step_other_storage. intros i b. apply H. left. reflexivity.
 Qed.
 Print Assumptions C24_isolation_history.
@@ -38,11 +39,11 @@ Proof. intros c o i b. destruct o; cbn; intros H; inversion H; reflexivity. Qed.
 Print Assumptions C24_target_is_route.
 
 (* ListBuckets is complete: every bucket of the default storage and of every mapped storage is listed *)
-Theorem C24_list_complete : forall c w b,
+Theorem C24_list_complete : forall c now w b,
   (In b (buckets_of (get_store w 0)) \/ exists e, In e c /\ In b (buckets_of (get_store w (snd e)))) ->
-  exists l, snd (step c w ListBuckets) = RList l /\ In b l.
+  exists l, snd (step c now w ListBuckets) = RList l /\ In b l.
 Proof.
-  intros c w b H. eexists. split; [reflexivity|]. apply In_isort. apply in_or_app.
+  intros c now w b H. eexists. split; [reflexivity|]. apply In_isort. apply in_or_app.
   destruct H as [H|(e & He & Hb)]; [right; exact H | left]. apply in_flat_map. exists e. split; assumption.
 Qed.
 Print Assumptions C24_list_complete.
@@ -50,69 +51,121 @@ Print Assumptions C24_list_complete.
 (* list_no_dup at full strength: each bucket once — refuted: two mapping entries that share one
    backing database (each entry is its own storage instance) list that database once per entry *)
 Definition C24_list_no_dup_full : Prop :=
-  forall c w l, snd (step c w ListBuckets) = RList l -> NoDup l.
+  forall c now w l, snd (step c now w ListBuckets) = RList l -> NoDup l.
 
 Theorem C24_list_no_dup_refuted : ~ C24_list_no_dup_full.
 Proof.
   intros F.
-  specialize (F [(B"aaa", 1); (B"bbb", 1)] (fst (run [(B"aaa", 1); (B"bbb", 1)] [[]; []; []] [CreateBucket B"aaa"])) _ eq_refl).
+  specialize (F [(B"aaa", 1); (B"bbb", 1)] 0%Z (fst (run [(B"aaa", 1); (B"bbb", 1)] [[]; []; []] [CreateBucket B"aaa" false])) _ eq_refl).
   vm_compute in F. inversion F as [|x l Hn Hd]. apply Hn. left. reflexivity.
 Qed.
 Print Assumptions C24_list_no_dup_refuted.
 
 (* what remains true with no mapping entries at all: the listing is the default storage's listing *)
-Theorem C24_list_no_dup_partial : forall w l,
-  snd (step [] w ListBuckets) = RList l -> forall b, In b l <-> In b (buckets_of (get_store w 0)).
-Proof. intros w l H b. cbn in H. inversion H; subst. apply In_isort. Qed.
+Theorem C24_list_no_dup_partial : forall now w l,
+  snd (step [] now w ListBuckets) = RList l -> forall b, In b l <-> In b (buckets_of (get_store w 0)).
+Proof. intros now w l H b. cbn in H. inversion H; subst. apply In_isort. Qed.
 Print Assumptions C24_list_no_dup_partial.
 
-(* cross_copy_eq_same_copy at full strength: after a successful copy the destination object is the
-   source object, whichever storages are involved — refuted: a copy between different storage
-   instances re-puts the bytes with nil options and loses user metadata, tags and the multipart ETag *)
+(* ---- copy-source preconditions ---- *)
+(* the middleware's copySourceConditionsSatisfied decides exactly like the storage's own
+   evaluateCopySourceConditions, for every combination of the four headers and every instant *)
+Theorem C24_copy_conditions_agree : forall c lm, cross_conditions c lm = inner_conditions c lm.
+Proof. exact conditions_agree. Qed.
+Print Assumptions C24_copy_conditions_agree.
+
+(* time preconditions are evaluated at second granularity: only the second of Last-Modified matters *)
+Theorem C24_time_conditions_second_granularity : forall c lm lm',
+  (lm / 1000 = lm' / 1000)%Z -> cross_conditions c lm = cross_conditions c lm'.
+Proof. intros c lm lm' H. apply conditions_second_granularity. unfold trunc_s. rewrite H. reflexivity. Qed.
+Print Assumptions C24_time_conditions_second_granularity.
+
+(* a client that echoes the source's Last-Modified second back: If-Unmodified-Since passes,
+   If-Modified-Since fails, whatever the sub-second part of the stored timestamp *)
+Theorem C24_echoed_last_modified : forall lm,
+  cross_conditions {| c_im := None; c_inm := None; c_ius := Some (lm / 1000 * 1000)%Z; c_ims := None |} lm = true /\
+  cross_conditions {| c_im := None; c_inm := None; c_ius := None; c_ims := Some (lm / 1000 * 1000)%Z |} lm = false.
+Proof.
+  intros lm. unfold cross_conditions, trunc_s. cbn. rewrite Z.ltb_irrefl. cbn. split; reflexivity.
+Qed.
+Print Assumptions C24_echoed_last_modified.
+
+(* ---- cross-storage copy = same-storage copy ---- *)
+(* full strength: for every source store, destination store, source version id, range, precondition
+   set, for CopyObject (mp = false) and UploadPartCopy + complete (mp = true), the cross-storage
+   path has exactly the result (success / error kind, reported source version id) and writes exactly
+   the destination state of the storage's own copy *)
 Definition C24_cross_copy_eq_same_copy_full : Prop :=
-  forall c w sb sk db dk ob,
-  find_obj (get_store w (route c sb)) sb sk = inr ob ->
-  snd (step c w (Copy sb sk db dk)) = ROk ->
-  find_obj (get_store (fst (step c w (Copy sb sk db dk))) (route c db)) db dk = inr ob.
+  forall ss ds sb sk db dk co mp now,
+  cross_copy ss ds sb sk db dk co mp now = inner_copy ss ds sb sk db dk co mp now.
+
+(* refuted (1): user metadata, tags and the multipart ETag are lost by the re-put with nil options *)
+Definition c24_src_store : store :=
+  [(B"aaa", {| b_versioned := false; b_keys := [(B"k", [VObj {| o_data := B"d"; o_c := true; o_u := true; o_t := true; o_m := false; o_lm := 1537 |}])] |})].
+Definition c24_dst_store : store := [(B"ddd", {| b_versioned := false; b_keys := [] |})].
 
 Theorem C24_cross_copy_eq_same_copy_refuted : ~ C24_cross_copy_eq_same_copy_full.
 Proof.
-  intros F.
-  set (c := [(B"aaa", 1)]).
-  set (w := fst (run c [[]; []; []] [CreateBucket B"aaa"; CreateBucket B"ddd"; Put B"aaa" B"k" (mkobj B"d" true false)])).
-  specialize (F c w B"aaa" B"k" B"ddd" B"k2" (mkobj B"d" true false) eq_refl eq_refl).
+  intros F. specialize (F c24_src_store c24_dst_store B"aaa" B"k" B"ddd" B"k2" no_opts false 2537%Z).
   vm_compute in F. discriminate.
 Qed.
 Print Assumptions C24_cross_copy_eq_same_copy_refuted.
 
-(* ... and what is true: a same-instance copy preserves the object entirely; a cross-instance copy
-   preserves content and content type and is exact when the source carries no user metadata, no
-   tags and no multipart ETag *)
-Theorem C24_cross_copy_eq_same_copy_partial : forall c w sb sk db dk ob,
-  find_obj (get_store w (route c sb)) sb sk = inr ob ->
-  snd (step c w (Copy sb sk db dk)) = ROk ->
-  (same_instance c sb db = true \/ (o_u ob = false /\ o_t ob = false /\ o_m ob = false)) ->
-  find_obj (get_store (fst (step c w (Copy sb sk db dk))) (route c db)) db dk = inr ob.
+(* refuted (2): even the result kind differs for a ranged UploadPartCopy of an EMPTY source — the
+   storage shares the wholly covered part without opening a reader (ok), the middleware's
+   GetObject rejects the empty window (InvalidRange) *)
+Definition C24_cross_copy_result_kind_full : Prop :=
+  forall ss ds sb sk db dk co mp now,
+  snd (cross_copy ss ds sb sk db dk co mp now) = snd (inner_copy ss ds sb sk db dk co mp now).
+
+Theorem C24_cross_copy_result_kind_refuted : ~ C24_cross_copy_result_kind_full.
 Proof.
-  intros c w sb sk db dk ob F R H. rewrite (copy_result _ _ _ _ _ _ _ F R).
-  destruct H as [H|(H1 & H2 & H3)]; [rewrite H; reflexivity|].
-  destruct (same_instance c sb db); [reflexivity|]. destruct ob; cbn in *; subst; reflexivity.
+  intros F.
+  specialize (F [(B"aaa", {| b_versioned := false; b_keys := [(B"k", [VObj {| o_data := []; o_c := false; o_u := false; o_t := false; o_m := false; o_lm := 1537 |}])] |})]
+                c24_dst_store B"aaa" B"k" B"ddd" B"k2" {| co_vid := None; co_range := RgSuffix 3; co_conds := no_conds |} true 2537%Z).
+  vm_compute in F. discriminate.
 Qed.
+Print Assumptions C24_cross_copy_result_kind_refuted.
+
+(* partial (a): outside that corner the result — success or the same error kind (NoSuchBucket,
+   NoSuchKey, DeleteMarker, MethodNotAllowed for a pinned delete marker, PreconditionFailed,
+   InvalidRange) and the reported source version id — is the same, for every source version id,
+   range and precondition set, CopyObject and UploadPartCopy alike *)
+Theorem C24_cross_copy_result_kind_partial : forall ss ds sb sk db dk co mp now,
+  (forall src v, find_version ss sb sk (co_vid co) = inr (src, v) -> mp = true -> o_data src = [] -> is_ranged (co_range co) = false) ->
+  snd (cross_copy ss ds sb sk db dk co mp now) = snd (inner_copy ss ds sb sk db dk co mp now).
+Proof. exact copy_kinds_agree. Qed.
+Print Assumptions C24_cross_copy_result_kind_partial.
+
+(* partial (b): the written destination state is identical as well when the copy is an
+   UploadPartCopy, or the source carries no user metadata, no tags and (for an unranged copy) no
+   multipart ETag *)
+Theorem C24_cross_copy_eq_same_copy_partial : forall ss ds sb sk db dk co mp now,
+  (forall src v, find_version ss sb sk (co_vid co) = inr (src, v) ->
+     (mp = true -> o_data src = [] -> is_ranged (co_range co) = false) /\
+     (mp = true \/ (o_u src = false /\ o_t src = false /\ (o_m src = false \/ is_ranged (co_range co) = true)))) ->
+  cross_copy ss ds sb sk db dk co mp now = inner_copy ss ds sb sk db dk co mp now.
+Proof. exact copy_stores_agree. Qed.
 Print Assumptions C24_cross_copy_eq_same_copy_partial.
 
-Theorem C24_cross_copy_content_preserved : forall c w sb sk db dk ob,
-  find_obj (get_store w (route c sb)) sb sk = inr ob ->
-  snd (step c w (Copy sb sk db dk)) = ROk ->
-  exists ob', find_obj (get_store (fst (step c w (Copy sb sk db dk))) (route c db)) db dk = inr ob'
-              /\ o_data ob' = o_data ob /\ o_c ob' = o_c ob.
-Proof.
-  intros c w sb sk db dk ob F R. eexists. split; [exact (copy_result _ _ _ _ _ _ _ F R)|].
-  destruct (same_instance c sb db); split; reflexivity.
-Qed.
+(* partial (c): content (the requested window of the pinned version) and content type always survive *)
+Theorem C24_cross_copy_content_preserved : forall src win rg mp now,
+  o_data (copied_obj src win rg true mp now) = o_data (copied_obj src win rg false mp now) /\
+  o_c (copied_obj src win rg true mp now) = o_c (copied_obj src win rg false mp now).
+Proof. exact copied_obj_content. Qed.
 Print Assumptions C24_cross_copy_content_preserved.
 
-(* non-vacuity: three storages, a cross copy and a duplicated listing *)
+(* the router uses the storage's own copy exactly when both buckets resolve to one instance *)
+Theorem C24_router_copy_paths : forall c now w sb sk db dk co,
+  step c now w (Copy sb sk db dk co) =
+  let '(ds', r) := (if same_instance c sb db then inner_copy else cross_copy)
+                     (get_store w (route c sb)) (get_store w (route c db)) sb sk db dk co false now in
+  (match ds' with Some s' => upd_nth (route c db) (fun _ => s') w | None => w end, r).
+Proof. reflexivity. Qed.
+Print Assumptions C24_router_copy_paths.
+
+(* non-vacuity: versions, a pinned non-current version, a range, echoed Last-Modified, a duplicated listing *)
 Example C24_ex :
-  run_line B"aaa:1,bbb:1,ccc:2 cb,aaa;cb,ccc;put,aaa,k1,d1,1;cp,aaa,k1,ccc,k2;cp,aaa,k1,aaa,k3;lb" =
-  B"ok;ok;ok;ok;ok;L:aaa,aaa,ccc | 0: 1:aaa{k1=d1:c1u1t1m0,k3=d1:c1u1t1m0} 2:ccc{k2=d1:c1u0t0m0}".
+  run_line B"aaa:1,bbb:1,ccc:2 cbv,aaa;cb,ccc;put,aaa,k1,abcdefgh,1;put,aaa,k1,xy,0;del,aaa,k1;cp,aaa,k1,ccc,k2,1,2:6,us0;cp,aaa,k1,ccc,k3,-,-,-;cp,aaa,k1,ccc,k3,3,-,-;upc,aaa,k1,ccc,k4,2,-,ms0;lb" =
+  B"ok;ok;ok;ok;ok;ok:1;DeleteMarker;MethodNotAllowed;PreconditionFailed;L:aaa,aaa,ccc | 0: 1:aaa!{k1=DM|xy:c0u0t0m0|abcdefgh:c1u1t1m0} 2:ccc{k2=cdef:c1u0t0m0}".
 Proof. vm_compute. reflexivity. Qed.
